@@ -2,14 +2,21 @@
 (* Impl-shaped sub-iterators (IterImpl.tla) refine the Ideal visiting order on every module shape and skip set *)
 EXTENDS IterImpl
 CONSTANTS MaxFuncs, MaxInstr
-VARIABLES md, sk
-vars == <<md, sk>>
+VARIABLES md, sk, md2, sk2
+vars == <<md, sk, md2, sk2>>
 Seqs(S, n) == UNION {[1 .. k -> S] : k \in 0 .. n}
-Init == /\ md \in {[nimp |-> ni, funcs |-> f] : ni \in {0, 2}, f \in Seqs(1 .. MaxInstr, MaxFuncs)}
+Init == /\ md \in {[nimp |-> ni, funcs |-> f, repl |-> r] : ni \in {0, 2}, f \in Seqs(1 .. MaxInstr, MaxFuncs), r \in {0, 2}}
+        /\ (md.repl > 0 => md.nimp > 0)
         /\ sk \in SUBSET (0 .. (md.nimp + Len(md.funcs) + 1))
+        \* a second, smaller module behind it for the component-level walk
+        /\ md2 \in {[nimp |-> 0, funcs |-> f, repl |-> 0] : f \in Seqs(1 .. 2, 2)}
+        /\ sk2 \in SUBSET (0 .. Len(md2.funcs))
 Next == UNCHANGED vars
 Spec == Init /\ [][Next]_vars
 Refines == WalkNow(md, sk) = IdealWalk(md, sk)
+\* the component sub-iterator over <<md, md2>> and over <<md2, md>> refines the Ideal too
+CompRefines == /\ CompWalkNow(<<md, md2>>, <<sk, sk2>>) = IdealCompWalk(<<md, md2>>, <<sk, sk2>>)
+               /\ CompWalkNow(<<md2, md>>, <<sk2, sk>>) = IdealCompWalk(<<md2, md>>, <<sk2, sk>>)
 \* reset brings the iterator back to the state after construction, wherever it is
 ResetOk == LET mt == Meta(md) s0 == M_New(mt, sk) IN
            \A k \in 0 .. 6 :
